@@ -200,30 +200,56 @@ Definition step (s:st) (enc:nat) (c:card) (parts:option (list str)) : st :=
   end.
 
 (* what DrawRelation prints for a column, and the symbol it relates the table to (if any) *)
+Definition lab (e:ety) : lname := let '(_, _, l, _) := get_names e in l.
 Definition rel_line (f:positive * fty) : item :=
   IField (fst f) (match snd f with
-                  | FRef r => match r_path r with p0 :: p1 :: _ => LFK (p0 ++ p1) | short => LRefd (join (r_parts r ++ short)) end
+                  | FRef r => match r_path r with
+                              | _ :: _ :: _ => LFK (join (removelast (r_path r)) ++ last (r_path r) empty_str)
+                              | short => LRefd (join (r_parts r ++ short))
+                              end
                   | FPrim p => LPrim p
-                  | _ => LPrim 0
+                  | FList e => LColl KList (lab e)
+                  | FSet e => LColl KSet (lab e)
+                  | FSeq e => LColl KSeq (lab e)
+                  | FOther => LPrim 0
                   end).
+(* the element type of a collection column *)
+Definition coll_parts (tm:list entity) (e:ety) : option (list str) :=
+  let '(app, path, _, isprim) := get_names e in
+  if negb isprim && has_type tm (app ++ join path) then Some [app; join path] else None.
 Definition rel_parts (tm:list entity) (eapp:str) (t:fty) : option (list str) :=
   match t with
   | FRef r => match r_path r with
-              | p0 :: _ :: _ =>
+              | _ :: _ :: _ =>
                   let tapp := match r_app r with Some a => a | None => eapp end in
-                  if has_type tm (tapp ++ p0) then Some [tapp; p0] else None
+                  let table := join (removelast (r_path r)) in
+                  if has_type tm (tapp ++ table) then Some [tapp; table] else None
               | _ => None
               end
+  | FList e | FSet e | FSeq e => coll_parts tm e
   | _ => None
   end.
+(* the label a table's relationship lines to that symbol start with *)
+Definition rel_card (t:fty) : card := match t with FList _ | FSet _ | FSeq _ => CMany | _ => CBlank end.
+
+Lemma rel_coll_step : forall tm enc s n k e,
+  draw_rel_coll tm enc s n k (get_names e) = (step s enc CMany (coll_parts tm e), [IField n (LColl k (lab e))]).
+Proof.
+  intros tm enc s n k e. unfold draw_rel_coll, coll_parts, lab, step, add_relationship.
+  destruct (get_names e) as [[[app path] l] isprim].
+  destruct (negb isprim && has_type tm (app ++ join path)); [|reflexivity].
+  destruct (uvar (syms s) _) as [sy tgt]. reflexivity.
+Qed.
 
 Lemma rel_field_step : forall tm eapp enc s f s' o,
   draw_rel_field sh0 tm eapp enc s f = Ok (s', o) ->
-  o = [rel_line f] /\ s' = step s enc CBlank (rel_parts tm eapp (snd f)).
+  o = [rel_line f] /\ s' = step s enc (rel_card (snd f)) (rel_parts tm eapp (snd f)).
 Proof.
-  intros tm eapp enc s [n t] s' o. unfold draw_rel_field, rel_line, rel_parts, step. cbn [fst snd].
-  destruct t as [p|r|e|e|e|]; try (intros [= <- <-]; split; reflexivity).
-  destruct (r_path r) as [|p0 [|p1 rest]];
+  intros tm eapp enc s [n t] s' o. unfold draw_rel_field, rel_line, rel_parts, rel_card. cbn [fst snd].
+  destruct t as [p|r|e|e|e|]; try (intros [= <- <-]; split; reflexivity);
+    try (rewrite rel_coll_step; intros [= <- <-]; split; reflexivity).
+  unfold step.
+  destruct (r_path r) as [|p0 [|p1 rest]] eqn:Hp;
     try (cbn [sh_rel_guards_short_path fixed_shape]; intros [= <- <-]; split; reflexivity).
   cbn [sh_rel_target sh_rel_checks_target sh_rel_count_new sh_rel_count_again fixed_shape andb].
   destruct (has_type tm _) eqn:E; cbn [negb].
@@ -232,7 +258,6 @@ Proof.
 Qed.
 
 (* what DrawTuple prints for a field, and the symbol it relates the tuple to (if any) *)
-Definition lab (e:ety) : lname := let '(_, _, l, _) := get_names e in l.
 Definition tuple_line (f:positive * fty) : list item :=
   match snd f with
   | FPrim p => [IField (fst f) (LPrim p)]
@@ -244,12 +269,8 @@ Definition tuple_line (f:positive * fty) : list item :=
   end.
 Definition relate_parts (tm:list entity) (app:str) (path:list str) (isprim:bool) : option (list str) :=
   if isprim then None
-  else match path with
-       | [] => None
-       | p0 :: rest =>
-           let '(appn, tn) := match rest with [] => (app, p0) | p1 :: _ => (p0, p1) end in
-           if negb (has_type tm (appn ++ tn)) && negb (has_type tm tn) then None else Some [appn; tn]
-       end.
+  else let tn := join path in
+       if negb (has_type tm (app ++ tn)) && (negb (is_empty_str app) || negb (has_type tm tn)) then None else Some [app; tn].
 Definition tuple_parts (tm:list entity) (ign:list str) (t:fty) : option (list str) :=
   match t with
   | FPrim _ | FOther => None
@@ -266,16 +287,10 @@ Lemma tuple_relate_step : forall tm enc s n l app path isprim c s' o,
 Proof.
   intros tm enc s n l app path isprim c s' o. unfold tuple_relate, relate_parts, step.
   destruct isprim; [intros [= <- <-]; split; reflexivity|].
-  destruct path as [|p0 rest]; [discriminate|].
-  destruct rest as [|p1 rest'].
-  - destruct (negb (has_type tm (app ++ p0)) && negb (has_type tm p0)).
-    + intros [= <- <-]; split; reflexivity.
-    + cbn [sh_tuple_count_new sh_tuple_count_again fixed_shape].
-      destruct (uvar (syms s) _) as [sy tgt]. intros [= <- <-]; split; reflexivity.
-  - destruct (negb (has_type tm (p0 ++ p1)) && negb (has_type tm p1)).
-    + intros [= <- <-]; split; reflexivity.
-    + cbn [sh_tuple_count_new sh_tuple_count_again fixed_shape].
-      destruct (uvar (syms s) _) as [sy tgt]. intros [= <- <-]; split; reflexivity.
+  destruct (negb (has_type tm (app ++ join path)) && (negb (is_empty_str app) || negb (has_type tm (join path)))).
+  - intros [= <- <-]; split; reflexivity.
+  - cbn [sh_tuple_count_new sh_tuple_count_again fixed_shape].
+    destruct (uvar (syms s) _) as [sy tgt]. intros [= <- <-]; split; reflexivity.
 Qed.
 
 Lemma tuple_field_step : forall tm ign enc s f s' o,
@@ -362,7 +377,7 @@ Proof.
   - destruct (draw_rel_field sh0 tm eapp enc s f) as [[s1 o1]|] eqn:E1; [|discriminate].
     destruct (draw_rel_fields sh0 tm eapp enc s1 fs) as [[s2 o2]|] eqn:E2; [|discriminate].
     intros [= <- <-] Hinv Hfk Henc. apply rel_field_step in E1. destruct E1 as [-> ->].
-    destruct (inv_step s P fk enc CBlank (rel_parts tm eapp (snd f)) Hinv Hfk Henc) as [Hx Hinv1].
+    destruct (inv_step s P fk enc (rel_card (snd f)) (rel_parts tm eapp (snd f)) Hinv Hfk Henc) as [Hx Hinv1].
     specialize (IH _ _ _ _ E2 Hinv1 (extends_in _ _ _ Hx Hfk)).
     destruct IH as [-> [Hx2 Hinv2]]; [rewrite (extends_idx _ _ _ Hx Hfk); exact Henc|].
     cbn [map flat_map app]. split; [reflexivity|]. split; [eapply extends_trans; eauto|].
@@ -399,7 +414,7 @@ Definition is_drawn (e:entity) : bool :=
 (* (class symbol, target symbol) of every relationship the code records for the type *)
 Definition entity_contrib (tm:list entity) (ign:list str) (e:entity) : list (str * str) :=
   match e_def e with
-  | DRel fs => flat_map (fun f => contrib (class_key e) (rel_parts tm (entity_app e) (snd f))) fs
+  | DRel fs => flat_map (fun f => contrib (class_key e) (rel_parts tm (e_app e) (snd f))) fs
   | DTuple fs => flat_map (fun f => contrib (class_key e) (tuple_parts tm ign (snd f))) fs
   | _ => []
   end.
@@ -429,11 +444,11 @@ Proof.
   intros tm ign [sy0 r0] isrel e P s' r' o. unfold draw_entity, entity_contrib, spec_block, class_key, is_drawn.
   destruct (e_def e) as [fs|fs|p|items| |] eqn:D; cbn [sh_dispatch fixed_shape find kind_matches].
   - (* table *)
-    unfold draw_relation. cbn [sh_rel_key fixed_shape enc_parts syms rel].
+    unfold draw_relation. cbn [sh_rel_key sh_rel_app fixed_shape enc_parts syms rel entity_app].
     destruct (uvar sy0 (split_args (e_key e))) as [sy enc] eqn:U. apply uvar_spec in U. destruct U as [Hx [Hk Henc]].
-    destruct (draw_rel_fields sh0 tm (entity_app e) enc {| syms := sy; rel := r0 |} fs) as [[s1 o1]|] eqn:E; [|discriminate].
+    destruct (draw_rel_fields sh0 tm (e_app e) enc {| syms := sy; rel := r0 |} fs) as [[s1 o1]|] eqn:E; [|discriminate].
     intros [= <- <- <-] Hinv.
-    destruct (rel_fields_inv tm (entity_app e) _ enc fs _ P _ _ E (inv_extends _ _ _ _ Hinv Hx) Hk Henc) as [-> [Hx2 Hinv2]].
+    destruct (rel_fields_inv tm (e_app e) _ enc fs _ P _ _ E (inv_extends _ _ _ _ Hinv Hx) Hk Henc) as [-> [Hx2 Hinv2]].
     cbn [syms] in *. split; [eapply extends_trans; eauto|]. split; [exact Hinv2|]. split.
     + rewrite (extends_idx _ _ _ Hx2 Hk), <- Henc. reflexivity.
     + intros _. eapply extends_in; eauto.
@@ -460,9 +475,9 @@ Proof.
   - intros [= <- <- <-] Hinv. rewrite app_nil_r. split; [apply extends_refl|]. split; [exact Hinv|]. split; [reflexivity|discriminate].
 Qed.
 
-Notation in_view0 := (in_view ViewAppEq).
+Notation in_view0 := (in_view ViewAppsMember).
 (* the types the diagram covers, in order *)
-Definition drawn (filt:option str) (tm:list entity) : list entity := filter (in_view0 filt) tm.
+Definition drawn (filt:option (list str)) (tm:list entity) : list entity := filter (in_view0 filt) tm.
 
 Lemma entities_inv : forall filt tm ign es s isrel P s' r' o,
   draw_entities sh0 filt tm ign s isrel es = Ok (s', r', o) -> inv s P ->
@@ -625,14 +640,44 @@ Proof.
   split; [vm_compute; reflexivity|]. split; [left; reflexivity|]. split; [right; right; left; reflexivity|discriminate].
 Qed.
 
-(* fields: a table column of collection type is listed as `no_primitive` *)
-Theorem dm_fields_exact_refuted : exists es o f,
-  draw None es = Ok o /\
-  In {| e_app := [2%positive]; e_name := [4%positive]; e_def := DRel [(f, FSet (EPrim 4))] |} es /\ In (IField f (LPrim 0)) o.
+(* fields of tables, full (fixes C15-5, C15-7): the line of a column names its type - the primitive; the whole path
+   Table.column of a foreign key (a nested table: Outer.Table.column); the application parts and the path of a
+   reference that is no Table.column; Set / Sequence / List <element> for a collection column, the element named as
+   DrawTuple names it.  `no_primitive` is printed only for a column without any of these types *)
+Theorem dm_fields_exact : forall f,
+  rel_line f = IField (fst f) (match snd f with
+                               | FPrim p => LPrim p
+                               | FRef r => if 2 <=? length (r_path r)
+                                           then LFK (join (removelast (r_path r)) ++ last (r_path r) empty_str)
+                                           else LRefd (join (r_parts r ++ r_path r))
+                               | FList e => LColl KList (lab e)
+                               | FSet e => LColl KSet (lab e)
+                               | FSeq e => LColl KSeq (lab e)
+                               | FOther => LPrim 0
+                               end).
 Proof.
-  exists [ {| e_app := [2%positive]; e_name := [4%positive]; e_def := DRel [(1%positive, FSet (EPrim 4))] |} ]. eexists. exists 1%positive.
-  split; [vm_compute; reflexivity|]. split; [left; reflexivity|right; left; reflexivity].
+  intros [n t]. unfold rel_line. cbn [fst snd]. destruct t as [p|r|e|e|e|]; try reflexivity.
+  destruct (r_path r) as [|p0 [|p1 rest]]; reflexivity.
 Qed.
+(* ... and the label of a foreign key is the whole path when no element of it is empty *)
+Lemma fk_label_whole_path : forall r, 2 <= length (r_path r) -> concat (removelast (r_path r)) <> [] ->
+  join (removelast (r_path r)) ++ last (r_path r) empty_str = join (r_path r).
+Proof.
+  intros r H Hne. unfold join at 1. destruct (concat (removelast (r_path r))) as [|z l] eqn:E; [contradiction|].
+  rewrite <- E. assert (G : forall (q:list str) d, q <> [] -> concat (removelast q) ++ last q d = concat q).
+  { induction q as [|x q IH]; intros d Hq; [contradiction|]. destruct q as [|y q]; [cbn; rewrite app_nil_r; reflexivity|].
+    change (removelast (x :: y :: q)) with (x :: removelast (y :: q)). change (last (x :: y :: q) d) with (last (y :: q) d).
+    cbn [concat]. rewrite <- app_assoc, IH by discriminate. reflexivity. }
+  assert (Hq : r_path r <> []) by (intros Q; rewrite Q in H; cbn in H; lia).
+  pose proof (G (r_path r) empty_str Hq) as G1. rewrite G1. unfold join.
+  destruct (concat (r_path r)) eqn:C; [|reflexivity].
+  exfalso. apply app_eq_nil in G1. destruct G1 as [G1 _]. rewrite G1 in E. discriminate.
+Qed.
+Example fields_exact_example :
+  rel_line (1%positive, FSet (EPrim 4)) = IField 1%positive (LColl KSet (LP 4)) /\
+  rel_line (2%positive, FRef {| r_ctx := [2%positive]; r_app := None; r_parts := []; r_path := [[4%positive]; [5%positive]; [6%positive]] |})
+    = IField 2%positive (LFK [4%positive; 5%positive; 6%positive]).
+Proof. split; reflexivity. Qed.
 
 (* tuple fields: the printed label names the field's type *)
 Lemma ref_label_names_path : forall r, lab (ERef r) = LN (join (r_path r)) \/ exists a, lab (ERef r) = LN (a ++ join (r_path r)).
@@ -656,24 +701,26 @@ Lemma filter_hits_total : forall sy P, (forall p, In p P -> In (fst p) sy /\ In 
   forall p, In p P -> hits sy (idx sy (fst p)) (idx sy (snd p)) p = true.
 Proof. intros sy P H p Hp. unfold hits. rewrite !Nat.eqb_refl. reflexivity. Qed.
 
-(* the code's resolution of a reference is the plain one (application of the reference or of its context, then
-   the type name) when the path has one element; a table column reference App.Table.column resolves to App.Table *)
-Lemma tuple_parts_plain : forall tm ign r p0, r_path r = [p0] ->
-  mem_str (join [p0]) ign = false -> has_type tm p0 = false ->
+(* the code's resolution of a reference (fixes C15-6, C15-7): the application of the reference or of its context, then
+   the WHOLE path - a path of several elements names a nested type *)
+Lemma tuple_parts_whole_path : forall tm ign r,
+  mem_str (join (r_path r)) ign = false ->
+  is_empty_str (match r_app r with Some a => a | None => r_ctx r end) = false ->
   tuple_parts tm ign (FRef r) =
     let app := match r_app r with Some a => a | None => r_ctx r end in
-    if has_type tm (app ++ p0) then Some [app; p0] else None.
+    if has_type tm (app ++ join (r_path r)) then Some [app; join (r_path r)] else None.
 Proof.
-  intros tm ign r p0 Hp Hi Hb. unfold tuple_parts, get_names. rewrite Hp, Hi. unfold relate_parts.
-  rewrite Hb. cbn [negb]. rewrite andb_true_r. clear Hb. destruct (has_type tm (_ ++ p0)); reflexivity.
+  intros tm ign r Hi Ha. unfold tuple_parts, get_names. rewrite Hi. unfold relate_parts.
+  rewrite Ha. cbn [negb orb]. rewrite andb_true_r. destruct (has_type tm _); reflexivity.
 Qed.
-Lemma set_parts_plain : forall tm ign r p0, r_path r = [p0] -> has_type tm p0 = false ->
+Lemma set_parts_whole_path : forall tm ign r,
+  is_empty_str (match r_app r with Some a => a | None => r_ctx r end) = false ->
   tuple_parts tm ign (FSet (ERef r)) =
     let app := match r_app r with Some a => a | None => r_ctx r end in
-    if has_type tm (app ++ p0) then Some [app; p0] else None.
+    if has_type tm (app ++ join (r_path r)) then Some [app; join (r_path r)] else None.
 Proof.
-  intros tm ign r p0 Hp Hb. unfold tuple_parts, get_names. rewrite Hp. unfold relate_parts.
-  rewrite Hb. cbn [negb]. rewrite andb_true_r. clear Hb. destruct (has_type tm (_ ++ p0)); reflexivity.
+  intros tm ign r Ha. unfold tuple_parts, get_names. unfold relate_parts.
+  rewrite Ha. cbn [negb orb]. rewrite andb_true_r. destruct (has_type tm _); reflexivity.
 Qed.
 Lemma sym_key_pair : forall a p0, a <> [] -> is_empty_str a = false -> is_empty_str p0 = false -> sym_key [a; p0] = a ++ p0.
 Proof.
@@ -686,17 +733,10 @@ Definition ex_nested : list entity :=
        e_def := DTuple [(1%positive, FRef {| r_ctx := [2%positive]; r_app := None; r_parts := []; r_path := [[4%positive]; [5%positive]] |})] |};
     {| e_app := [2%positive]; e_name := [4%positive; 5%positive]; e_def := DTuple [] |} ].
 
-(* a reference by a nested name (A.B inside application 2) to a type the diagram declares gets no line *)
-Theorem dm_edges_exact_refuted : exists es o a n,
-  draw None es = Ok o /\ In (IClass a (2%positive :: n) HClass) o /\
-  In {| e_app := [2%positive]; e_name := [4%positive];
-        e_def := DTuple [(1%positive, FRef {| r_ctx := [2%positive]; r_app := None; r_parts := []; r_path := [[4%positive]; [5%positive]] |})] |} es /\
-  n = join [[4%positive]; [5%positive]] /\ forall x y, count_edges o x y = 0.
-Proof.
-  exists ex_nested. eexists. exists 1, [4%positive; 5%positive].
-  split; [vm_compute; reflexivity|]. split; [right; right; right; left; reflexivity|]. split; [left; reflexivity|].
-  split; [reflexivity|]. intros x y. reflexivity.
-Qed.
+(* (fix C15-7) a reference by a nested name (A.B inside application 2) to a type the diagram declares gets its line *)
+Example ex_nested_draws : exists o,
+  draw None ex_nested = Ok o /\ In (IClass 1 [2%positive; 4%positive; 5%positive] HClass) o /\ count_edges o 0 1 = 1.
+Proof. eexists. split; [vm_compute; reflexivity|]. split; [right; right; right; left; reflexivity|reflexivity]. Qed.
 
 Definition ex_prim_ref : list entity :=
   [ {| e_app := [2%positive]; e_name := [4%positive]; e_def := DPrim 4 |};
@@ -726,24 +766,13 @@ Example ex_two_refs_draws : exists o, draw None ex_two_refs = Ok o /\ count_edge
 Proof. eexists. split; [vm_compute; reflexivity|]. split; reflexivity. Qed.
 
 (* ------------------------------------------------------------------ the per-application view *)
-(* the filter keeps exactly the entities whose name STARTS with the chunk list `a` of one chunk: the code compares
-   strings.Split(entityName, ".")[0] with the application name *)
-Lemma drawn_app_chunk : forall a tm e, In e (drawn (Some a) tm) <-> In e tm /\ [hd eps (e_key e)] = a.
+(* (fix C15-3) the filter keeps exactly the entities whose OWN application is one of the view's: the code looks the
+   application up in entityApps, it no longer recovers it from the first '.'-chunk of the joined name *)
+Lemma drawn_apps_exact : forall apps tm e, In e (drawn (Some apps) tm) <-> In e tm /\ In (e_app e) apps.
 Proof.
-  intros a tm e. unfold drawn. rewrite filter_In. unfold in_view. rewrite str_eqb_eq. reflexivity.
-Qed.
-
-(* when application names contain no '.', that is the equality of the application *)
-Definition plain_app (a:str) : Prop := exists x, a = [x].
-Lemma hd_key_plain : forall e x, e_app e = [x] -> [hd eps (e_key e)] = [x].
-Proof. intros e x H. unfold e_key. rewrite H. reflexivity. Qed.
-
-Lemma drawn_app_exact : forall a tm e, plain_app a -> (forall e', In e' tm -> plain_app (e_app e')) ->
-  (In e (drawn (Some a) tm) <-> In e tm /\ e_app e = a).
-Proof.
-  intros a tm e [x ->] Hp. rewrite drawn_app_chunk. split; intros [Hin H]; (split; [exact Hin|]).
-  - destruct (Hp e Hin) as [y Hy]. rewrite (hd_key_plain e y Hy) in H. rewrite Hy. exact H.
-  - apply hd_key_plain. exact H.
+  intros apps tm e. unfold drawn. rewrite filter_In. unfold in_view. rewrite existsb_exists. split; intros [Hin H]; (split; [exact Hin|]).
+  - destruct H as [x [Hx Hq]]. apply str_eqb_eq in Hq. rewrite Hq. exact Hx.
+  - exists (e_app e). split; [exact H|apply str_eqb_refl].
 Qed.
 
 Lemma relationship_only_edges : forall r ar i, In i (draw_relationship r ar) -> exists f t c, i = IEdge f t c ar.
@@ -772,66 +801,42 @@ Proof.
   intros sy e. unfold spec_block, is_drawn. destruct (e_def e); try discriminate; intros _; eexists; eexists; left; reflexivity.
 Qed.
 
-(* per-application view, by chunk (no hypothesis): the classes of the view of `a` are exactly the covered types whose
-   App.Type name has `a` as its first '.'-chunk *)
-Theorem view_of_app_chunk : forall a es o, draw (Some a) es = Ok o ->
+(* per-application view, FULL (fixes C15-3, C15-9; no hypothesis on the names): the classes of the view of the
+   applications `apps` are exactly the tables, tuples, primitive aliases and enums OF THOSE APPLICATIONS - none of
+   another application (however its name is spelled, with '.' or a common prefix), none missing *)
+Theorem view_of_app_exact : forall apps es o, draw (Some apps) es = Ok o ->
   (forall al n h, In (IClass al n h) o ->
-     exists e, In e (type_map es) /\ [hd eps (e_key e)] = a /\ is_drawn e = true /\ n = e_key e) /\
-  (forall e, In e (type_map es) -> [hd eps (e_key e)] = a -> is_drawn e = true -> exists al h, In (IClass al (e_key e) h) o).
+     exists e, In e (type_map es) /\ In (e_app e) apps /\ is_drawn e = true /\ n = e_key e) /\
+  (forall e, In e (type_map es) -> In (e_app e) apps -> is_drawn e = true -> exists al h, In (IClass al (e_key e) h) o).
 Proof.
-  intros a es o H. destruct (dm_blocks_exact _ _ _ H) as [sy [r [ar ->]]]. split.
+  intros apps es o H. destruct (dm_blocks_exact _ _ _ H) as [sy [r [ar ->]]]. split.
   - intros al n h Hin. apply in_app_or in Hin. destruct Hin as [Hin|Hin].
-    + apply in_flat_map in Hin. destruct Hin as [e [He Hb]]. apply drawn_app_chunk in He. destruct He as [He Ha].
+    + apply in_flat_map in Hin. destruct Hin as [e [He Hb]]. apply drawn_apps_exact in He. destruct He as [He Ha].
       destruct (spec_block_class _ _ _ _ _ Hb) as [-> Hd]. exists e. repeat split; assumption.
     + apply relationship_only_edges in Hin. destruct Hin as [f [t [c Hin]]]. discriminate.
   - intros e He Ha Hd. destruct (spec_block_has_class sy e Hd) as [al [h Hin]]. exists al, h.
-    apply in_or_app. left. apply in_flat_map. exists e. split; [apply drawn_app_chunk; split; assumption|exact Hin].
+    apply in_or_app. left. apply in_flat_map. exists e. split; [apply drawn_apps_exact; split; assumption|exact Hin].
 Qed.
 
-(* per-application view of application a, application names without '.': the classes of the diagram are exactly the
-   tables, tuples, primitive aliases and enums OF THAT APPLICATION - none of another application (however its name is
-   spelled), none missing *)
-Theorem view_of_app_exact : forall a es o, draw (Some a) es = Ok o ->
-  plain_app a -> (forall e, In e (type_map es) -> plain_app (e_app e)) ->
-  (forall al n h, In (IClass al n h) o ->
-     exists e, In e (type_map es) /\ e_app e = a /\ is_drawn e = true /\ n = e_key e) /\
-  (forall e, In e (type_map es) -> e_app e = a -> is_drawn e = true -> exists al h, In (IClass al (e_key e) h) o).
-Proof.
-  intros a es o H Ha Hp. destruct (view_of_app_chunk _ _ _ H) as [V1 V2]. split.
-  - intros al n h Hin. destruct (V1 _ _ _ Hin) as [e [He [Hc [Hd Hn]]]]. exists e.
-    assert (In e (drawn (Some a) (type_map es))) as Hdr by (apply drawn_app_chunk; split; assumption).
-    apply (drawn_app_exact a (type_map es) e Ha Hp) in Hdr. destruct Hdr as [_ Hdr]. repeat split; assumption.
-  - intros e He Hae Hd. apply V2; try assumption.
-    assert (In e (drawn (Some a) (type_map es))) as Hdr by (apply (drawn_app_exact a (type_map es) e Ha Hp); split; assumption).
-    apply drawn_app_chunk in Hdr. apply Hdr.
-Qed.
-
-(* ... refuted in full: an application whose name contains '.' (written App%2E2) has an EMPTY view, and the view of
-   the application named like its first chunk declares its types *)
+(* the witnesses of the refutations of the first pass, now drawn as the property demands: an application whose name
+   contains '.' (written App%2E2) has its own view, and the view of the application named like its first chunk does
+   not declare its types *)
 Definition ex_dotted_app : list entity :=
   [ {| e_app := [2%positive]; e_name := [4%positive]; e_def := DTuple [(1%positive, FPrim 4)] |};
     {| e_app := [2%positive; 3%positive]; e_name := [5%positive]; e_def := DTuple [(1%positive, FPrim 4)] |} ].
-Theorem view_of_dotted_app_refuted :
-  (exists e, In e (type_map ex_dotted_app) /\ e_app e = [2%positive; 3%positive] /\ is_drawn e = true /\
-     draw (Some [2%positive; 3%positive]) ex_dotted_app = Ok []) /\
-  (exists o al h e, draw (Some [2%positive]) ex_dotted_app = Ok o /\ In (IClass al (e_key e) h) o /\
-     In e (type_map ex_dotted_app) /\ e_app e <> [2%positive]).
-Proof.
-  split.
-  - eexists. split; [right; left; reflexivity|]. split; [reflexivity|]. split; [reflexivity|vm_compute; reflexivity].
-  - eexists. exists 1, HClass, {| e_app := [2%positive; 3%positive]; e_name := [5%positive]; e_def := DTuple [(1%positive, FPrim 4)] |}.
-    split; [vm_compute; reflexivity|]. split; [right; right; right; left; reflexivity|]. split; [right; left; reflexivity|discriminate].
-Qed.
+Example view_of_dotted_app_example :
+  draw (Some [[2%positive; 3%positive]]) ex_dotted_app = Ok [IClass 0 [2%positive; 3%positive; 5%positive] HClass; IField 1%positive (LPrim 4); IEnd] /\
+  draw (Some [[2%positive]]) ex_dotted_app = Ok [IClass 0 [2%positive; 4%positive] HClass; IField 1%positive (LPrim 4); IEnd].
+Proof. split; vm_compute; reflexivity. Qed.
 
 (* every field line of the view belongs to a block of that application: the whole class section is built from
    drawn (Some a), and relationship lines start at its classes only (dm_edges_exact_partial: P ranges over drawn) *)
 Example view_prefix_names : exists o,
-  draw (Some [2%positive])
+  draw (Some [[2%positive]])
        [ {| e_app := [2%positive]; e_name := [4%positive]; e_def := DTuple [(1%positive, FPrim 4)] |};
          {| e_app := [3%positive]; e_name := [4%positive]; e_def := DTuple [(1%positive, FPrim 4)] |} ] = Ok o /\
-  o = [IClass 0 [2%positive; 4%positive] HClass; IField 1%positive (LPrim 4); IEnd] /\
-  plain_app [2%positive].
-Proof. eexists. split; [vm_compute; reflexivity|]. split; [reflexivity|exists 2%positive; reflexivity]. Qed.
+  o = [IClass 0 [2%positive; 4%positive] HClass; IField 1%positive (LPrim 4); IEnd].
+Proof. eexists. split; [vm_compute; reflexivity|reflexivity]. Qed.
 
 (* ------------------------------------------------------------------ enum items (DrawEnum, since cdeb394) *)
 From Coq Require Import ZArith Permutation Sorted.
@@ -870,20 +875,26 @@ Example enum_items_example :
   enum_lines [(1%positive, 5%Z); (2%positive, 1%Z); (3%positive, 5%Z)] = [IItem 2%positive; IItem 1%positive; IItem 3%positive].
 Proof. reflexivity. Qed.
 
-(* ------------------------------------------------------------------ round 3: two more refutations *)
-(* a table of an application whose name contains '.': DrawRelation takes the first chunk of the name for the
-   application of a local foreign key, finds no such table and draws no line *)
+(* ------------------------------------------------------------------ round 3 *)
+(* (fix C15-4) a table of an application whose name contains '.': DrawRelation takes the table's own application for
+   a local foreign key (before: the first chunk of the joined name, no such table, no line) *)
 Definition ex_dotted_table : list entity :=
   [ {| e_app := [2%positive; 3%positive]; e_name := [4%positive];
        e_def := DRel [(1%positive, FPrim 4);
                       (2%positive, FRef {| r_ctx := [2%positive; 3%positive]; r_app := None; r_parts := []; r_path := [[4%positive]; [6%positive]] |})] |} ].
-Theorem dm_edges_dotted_app_refuted : exists o a,
-  draw None ex_dotted_table = Ok o /\ In (IClass a [2%positive; 3%positive; 4%positive] HClass) o /\
-  In (IField 2%positive (LFK [4%positive; 6%positive])) o /\ forall x y, count_edges o x y = 0.
+Example dm_edges_dotted_app_example : exists o,
+  draw None ex_dotted_table = Ok o /\ In (IClass 0 [2%positive; 3%positive; 4%positive] HClass) o /\
+  In (IField 2%positive (LFK [4%positive; 6%positive])) o /\ count_edges o 0 0 = 1.
 Proof.
-  eexists. exists 0. split; [vm_compute; reflexivity|]. split; [left; reflexivity|]. split; [right; right; left; reflexivity|].
-  intros x y. reflexivity.
+  eexists. split; [vm_compute; reflexivity|]. split; [left; reflexivity|]. split; [right; right; left; reflexivity|reflexivity].
 Qed.
+(* (fix C15-8) a collection column of a table is related to the type of its elements *)
+Example table_collection_example : exists o,
+  draw None [ {| e_app := [2%positive]; e_name := [4%positive];
+                 e_def := DRel [(1%positive, FSeq (ERef {| r_ctx := [2%positive]; r_app := None; r_parts := []; r_path := [[5%positive]] |}))] |};
+              {| e_app := [2%positive]; e_name := [5%positive]; e_def := DRel [(1%positive, FPrim 4)] |} ] = Ok o /\
+  In (IField 1%positive (LColl KSeq (LN [5%positive]))) o /\ In (IEdge 0 1 CMany true) o /\ count_edges o 0 1 = 1.
+Proof. eexists. split; [vm_compute; reflexivity|]. split; [right; left; reflexivity|]. split; [|reflexivity]. cbn. tauto. Qed.
 
 (* cardinality labels: all lines from one class to one target carry the label of the FIRST field (in sort.Strings
    order of the field names) - a `set of B` field followed by a plain `B` field gives two lines "0..*" *)
@@ -899,7 +910,8 @@ Proof.
   - cbn. tauto.
   - intros H. cbn in H. repeat (destruct H as [H|H]; [discriminate|]). destruct H.
 Qed.
-(* ... the lines of a table carry the blank label, those of a tuple field its own label on first use *)
+(* ... the foreign-key lines of a table carry the blank label, those of a collection column "0..*", those of a tuple
+   field its own label - on first use *)
 Lemma rel_step_card : forall tm eapp enc s f s' o, draw_rel_field sh0 tm eapp enc s f = Ok (s', o) ->
-  s' = step s enc CBlank (rel_parts tm eapp (snd f)).
+  s' = step s enc (rel_card (snd f)) (rel_parts tm eapp (snd f)).
 Proof. intros tm eapp enc s f s' o H. apply rel_field_step in H. apply H. Qed.
